@@ -7,6 +7,7 @@ import (
 	"errors"
 	"io"
 	"net"
+	"sync"
 	"time"
 
 	"github.com/bolkedebruin/rdpgw/cmd/rdpgw/identity"
@@ -30,9 +31,13 @@ type vpTransport struct {
 	gen    func(i int) []byte // lazy script: packet i is created when it is read
 	ngen   int
 	accepts, drains, ncloses int
+	yieldOnRead bool
 }
 
 func (t *vpTransport) ReadPacket() (int, []byte, error) {
+	if t.yieldOnRead {
+		vpRunTasks() // waiting for the client is where the tunnel's other goroutines get to run
+	}
 	t.nread++
 	if t.gen != nil {
 		if t.pos >= t.ngen {
@@ -72,19 +77,25 @@ type vpConn struct {
 	nclose   int
 	readsAfterClose int
 	block    bool // natively: Read blocks when the script is exhausted (a quiet backend)
+	mu       sync.Mutex // net.Conn implementations are safe for concurrent use
 }
 
 var vpErrClosed = errors.New("vpConn: use of closed connection")
 var vpErrEOF = errors.New("vpConn: EOF")
 
 func (c *vpConn) Read(b []byte) (int, error) {
+	c.mu.Lock()
+	defer c.mu.Unlock()
 	if c.closed {
 		c.readsAfterClose++
 		return 0, vpErrClosed
 	}
 	if c.rpos >= len(c.reads) {
 		if c.block {
-			vpBlockForever() // quiet backend that is never closed: the relay goroutine waits forever
+			c.mu.Unlock()
+			vpWaitClosed(c) // quiet backend: the reader waits until the connection is closed
+			c.mu.Lock()
+			return 0, vpErrClosed
 		}
 		return 0, vpErrEOF
 	}
@@ -97,7 +108,25 @@ func (c *vpConn) Read(b []byte) (int, error) {
 	return n, nil
 }
 
+// vpWaitClosed: the reader of a quiet connection waits until somebody closes it (forever if nobody does).
+func vpWaitClosed(c *vpConn) {
+	for i := 0; ; i++ {
+		c.mu.Lock()
+		cl := c.closed
+		c.mu.Unlock()
+		if cl {
+			return
+		}
+		if !vpSymbolic() && i > 3000 {
+			vpBlockForever()
+		}
+		vpWaitProgress()
+	}
+}
+
 func (c *vpConn) Write(b []byte) (int, error) {
+	c.mu.Lock()
+	defer c.mu.Unlock()
 	if c.closed {
 		return 0, vpErrClosed
 	}
@@ -108,6 +137,8 @@ func (c *vpConn) Write(b []byte) (int, error) {
 }
 
 func (c *vpConn) Close() error {
+	c.mu.Lock()
+	defer c.mu.Unlock()
 	c.closed = true
 	c.nclose++
 	return nil
